@@ -211,6 +211,39 @@ theorem connect_shape :
        "tunnel dial: param2.DialContext(lit0,lit:\"tcp\",param0)",
        "tunnel request: Method=lit:\"CONNECT\" Host=lit2"] := rfl
 
+/-! ### round 3: GetBody, the option-guarded blocks of Shoot, shared clients, the end of a pass, the provider -/
+
+/-- base.go GetBody IS the model's `getBody`: read everything, put an equal reader back, hand the bytes to the log -/
+theorem getBody_eq (b : BodyRd) : Gen.HttpWire.getBody b = getBody b := by
+  simp only [Gen.HttpWire.getBody, getBody]
+
+/-- the option-guarded blocks of Shoot before Client.Do touch the request exactly so: the answer log calls GetBody, auto-tag
+and the debug log read `req.URL`, the dump calls httputil.DumpRequest, the trace replaces `req` by `req.WithContext(…)` —
+what `bodyAtDo` models; nothing assigns Method, URL, Host or Header -/
+theorem shootGuarded_shape :
+    Gen.HttpWire.shootGuarded = ["Config.AnswLog.Enabled: local=GetBody(req)", "Config.AutoTag.Enabled: local.AddTag(autotag(recv.Config.AutoTag.URIElements,req.URL))", "Config.HTTPTrace.DumpEnabled: def:=httputil.DumpRequest(req,lit:true)", "Config.HTTPTrace.TraceEnabled: req=req.WithContext(httptrace.WithClientTrace(req.Context(),local))", "DebugLog: recv.Log.Debug(lit:\"Prepared ammo to shoot\",zap.Stringer(lit:\"url\",req.URL))"] := rfl
+
+/-- shared-client: the pool is built by WarmUp with `client-number` (at least one) clients, each from the gun's own
+constructor with the gun's own client configuration and target; Bind takes the pool's next client; `Next` advances the
+counter BEFORE it indexes (`clientOf`: the k-th gun gets `pool[(k+1) % len]`) -/
+theorem sharedClient_shape :
+    Gen.HttpWire.sharedClient = ["prepareClientPool: if(!recv.Config.SharedClient.Enabled){return nil,nil} ; if(<(recv.Config.SharedClient.ClientNumber,lit:1)){recv.Config.SharedClient.ClientNumber=lit:1} ; def:=clientpool.New(recv.Config.SharedClient.ClientNumber) ; for(def:=lit:0;<(i,recv.Config.SharedClient.ClientNumber);i++){def:=recv.ClientConstructor();clientpool.New(recv.Config.SharedClient.ClientNumber)#0.Add(recv.ClientConstructor())} ; return clientpool.New(recv.Config.SharedClient.ClientNumber)#0,nil", "createSharedDeps: def:=recv.prepareClientPool() ; if(!=(.prepareClientPool()#1,nil)){return nil,.prepareClientPool()#1} ; return &composite:SharedDeps,nil", "WarmUp: return recv.createSharedDeps(param0)", "Bind: def:=param1.Shared.(type) ; if(&&(param1.Shared.(type)#1,!=(param1.Shared.(type)#0.clientPool,nil))){recv.Client=param1.Shared.(type)#0.clientPool.Next()}", "NewBaseGun ClientConstructor: return param0(param1.Client,param1.Target)", "clientpool.Add: recv.pool=append(recv.pool,param0)", "clientpool.Next: if(==(len(recv.pool),lit:0)){var;return zero} ; def:=recv.i.Add(lit:1) ; return recv.pool[%(conv(recv.i.Add(lit:1)),len(recv.pool))]"] := rfl
+
+/-- the end of a pass in the four Scan loops: the pass is counted and checked against `passes`, the common header of
+uri/uripost is replaced by an EMPTY map (`scanAll` starts every pass with `[]`), the file is read again from offset 0 with a
+fresh scanner / reset reader / new json.Decoder; readLine / readBlock work on the decoder's own header map, which therefore
+persists across the lines of one pass (`scanUri` threads `common`) -/
+theorem scanWrap_shape :
+    Gen.HttpWire.scanWrap = ["uriDecoder wrap: continue ; def:=recv.file.Seek(lit:0,lit:0) ; if(!=(local,nil)){return nil,local} ; if(&&(!=(recv.config.Passes,lit:0),>=(recv.passNum,recv.config.Passes))){return nil,ErrPassLimit} ; if(==(recv.ammoNum,lit:0)){return nil,ErrNoAmmo} ; recv.Header=composite:http.Header ; recv.line=lit:0 ; recv.passNum++ ; recv.scanner=bufio.NewScanner(recv.file)", "uriDecoder reads: readLine(local,recv.Header)", "uripostDecoder wrap: def:=recv.file.Seek(lit:0,lit:0) ; if(!=(local,nil)){return nil,local} ; if(&&(!=(recv.config.Passes,lit:0),>=(recv.passNum,recv.config.Passes))){return nil,ErrPassLimit} ; if(==(recv.ammoNum,lit:0)){return nil,ErrNoAmmo} ; recv.header=make(http.Header) ; recv.passNum++ ; recv.reader.Reset(recv.file)", "uripostDecoder reads: readBlock(recv.reader,recv.header)", "rawDecoder wrap: continue ; def:=recv.file.Seek(lit:0,lit:0) ; if(!=(local,nil)){return nil,local} ; if(&&(!=(recv.config.Passes,lit:0),>=(recv.passNum,recv.config.Passes))){return nil,ErrPassLimit} ; if(==(recv.ammoNum,lit:0)){return nil,ErrNoAmmo} ; recv.passNum++ ; recv.reader.Reset(recv.file)", "jsonlineDecoder wrap: _,local=recv.file.Seek(lit:0,lit:0) ; if(!=(local,nil)){return nil,local} ; if(!=(local,nil)){return nil,local} ; if(&&(!=(recv.config.Passes,lit:0),>=(recv.passNum,recv.config.Passes))){return nil,ErrPassLimit} ; if(==(recv.ammoNum,lit:0)){return nil,ErrNoAmmo} ; local=recv.scanner.Err() ; recv.decoder=json.NewDecoder(recv.file) ; recv.line=lit:0 ; recv.passNum++"] := rfl
+
+/-- the provider: the `uris` option is the file `strings.Join(uris, "\n")`; Acquire builds the request of the ammo it took from
+the sink, lets the middlewares (none by default) see it and hands THAT request to the gun; Release gives the ammo back to
+the decoder unless the ammo is preloaded (preloaded ammo is used again, `provide`) -/
+theorem provider_shape :
+    Gen.HttpWire.urisSource = ["def:=bytes.NewReader(conv(strings.Join(param0.Uris,lit:\"\\n\")))", "def:=conv(bytes.NewReader(conv(strings.Join(param0.Uris,lit:\"\\n\"))))", "return conv(bytes.NewReader(conv(strings.Join(param0.Uris,lit:\"\\n\")))),&composite:fakeCloser,nil"] ∧
+    Gen.HttpWire.providerAcquire = ["def:=<-recv.Sink", "if(!<-recv.Sink#1){return nil,lit:false}", "def:=<-recv.Sink#0.BuildRequest()", "if(!=(.BuildRequest()#1,nil)){return <-recv.Sink#0,lit:false}", "range(recv.Middlewares){def:=val.UpdateRequest(.BuildRequest()#0);if(!=(val.UpdateRequest(.BuildRequest()#0),nil)){return <-recv.Sink#0,lit:false}}", "return ammo.NewGunAmmo(.BuildRequest()#0,<-recv.Sink#0.Tag(),recv.NextID()),<-recv.Sink#1"] ∧
+    Gen.HttpWire.providerRelease = ["if(recv.Preload){return }", "recv.Decoder.Release(param0)"] := ⟨rfl, rfl, rfl⟩
+
 theorem http2NeedsSSL_eq (ssl : Bool) : constructible .http2 ssl = (!Gen.HttpWire.http2NeedsSSL || ssl) := by
   cases ssl <;> rfl
 
